@@ -2441,6 +2441,11 @@ PPL::MIP_Problem::OK() const {
       // cases.
       for (Variables_Set::const_iterator v_it = i_variables.begin(),
              v_end = i_variables.end(); v_it != v_end; ++v_it) {
+        if (*v_it >= last_generator.space_dimension()) {
+          // A space dimension added after computing `last_generator':
+          // the corresponding coordinate is zero.
+          continue;
+        }
         gcd_assign(gcd, last_generator.coefficient(Variable(*v_it)),
                    last_generator.divisor());
         if (gcd != last_generator.divisor()) {
